@@ -299,6 +299,10 @@ func (ctx *Context) LoadNameGlobalWithDetail(name string, isRaw bool, detail *Bu
 					return nil
 				}
 			}
+			// 过程文本里记下读到的值: 作用域链上没找到时留下的是 null，全局表给出的值要覆盖它
+			if detail != nil {
+				detail.Ret = val
+			}
 			return val
 		}
 	}
